@@ -17,7 +17,7 @@ F_CNT = C03.F_CNT
 
 
 def c07b(ctx, tu):
-    protocol.report(ctx, tu, lambda r: r in ("C07.b", "C01.b"))
+    protocol.report(ctx, tu, lambda r: True)   # the whole step protocol is a premise of this property
     merged = not tu.find(A["report_forbidden_call"])
     if merged:
         return c07b_merged(ctx, tu)
